@@ -272,7 +272,11 @@ func checkNetwork(c *Ctx, s *SnapGenome, net *network.Network, graphView bool) (
 				return "graph/node-absent", fmt.Sprintf("Node(%d) of an absent node is not nil (%T)", u, nu)
 			}
 		}
-		from, to := nodeIds(net.From(u)), nodeIds(net.To(u))
+		// the answers are held before they are read (a caller walking two neighbourhoods at once does that): an answer must
+		// not change when the next question is asked
+		itFrom, itTo := net.From(u), net.To(u)
+		_ = net.From(list[(len(list)+int(u))%len(list)])
+		from, to := nodeIds(itFrom), nodeIds(itTo)
 		for _, v := range list {
 			c.Eval(1)
 			has := e.has(u, v)
